@@ -214,6 +214,9 @@ def run_impl(case, mode):
     op = FermionOperator()
     for ops, re, im in case['ham']['entries']:
         op += FermionOperator(tuple((q, d) for q, d in ops), complex(re, im))
+    # the caller's expression is an input: every use below must leave it as it was (the same object is used three
+    # times: compiled, applied directly, applied directly again at the end)
+    op_before = {k: complex(v) for k, v in op.terms.items()}
     ham = fqe.get_hamiltonian_from_openfermion(op, norb=norb, conserve_number=True)
     desc = {'cls': type(ham).__name__, 'quadratic': bool(ham.quadratic()), 'diagonal': bool(ham.diagonal()),
             'dc': bool(ham.diagonal_coulomb()), 'cn': bool(ham.conserve_number()), 'rank': int(ham.rank()),
@@ -268,6 +271,12 @@ def run_impl(case, mode):
             res['iht_out'] = fqeio.read_state(wfn.apply(iht2))
     except Exception as e:  # noqa
         res['iht_apply_exc'] = [type(e).__name__, str(e)[:200]]
+    # third use of the caller's expression object, and the expression itself
+    try:
+        res['out_direct_again'] = fqeio.read_state(wfn.apply(op))
+    except Exception as e:  # noqa
+        res['direct_again_exc'] = [type(e).__name__, str(e)[:200]]
+    res['op_intact'] = ({k: complex(v) for k, v in op.terms.items()} == op_before)
     return res
 
 
@@ -346,9 +355,12 @@ def compare(case, got, exp, mode):
                 bad.append('apply(iht(%d)) [%s]: coefficient of %s is %r, -i t (H - e0) psi has %r' % (t, d['cls'], k, g.get(k, 0), want))
                 break
     # --- action
-    for key, label in (('out', 'apply(build_hamiltonian(op))'), ('out_direct', 'apply(op)')):
+    if got.get('op_intact') is False:
+        bad.append('the source FermionOperator was modified by compiling / applying it [%s]' % d['cls'])
+    for key, label in (('out', 'apply(build_hamiltonian(op))'), ('out_direct', 'apply(op)'),
+                       ('out_direct_again', 'apply(op), same expression object used again')):
         if key not in got:
-            exc = got.get('apply_exc' if key == 'out' else 'direct_exc')
+            exc = got.get({'out': 'apply_exc', 'out_direct': 'direct_exc', 'out_direct_again': 'direct_again_exc'}[key])
             bad.append('%s raised %s' % (label, exc))
             continue
         g = {'%d,%d' % (a, b): (re, im) for a, b, re, im in got[key]}
